@@ -401,13 +401,125 @@ func c15Why(m *c15Model) string {
 	return proto + ":" + mx
 }
 
+// E3 scenario "c15race" (arg: first connection of a, "4c" = MQTT 3.1.1 clean session, "50" = MQTT 5
+// without Session Expiry Interval, "51" = MQTT 5 clean start with expiry 1): a's connection is
+// lost and, while its handler is still tearing down, a reconnects with a session that is to be
+// kept for 5 s (CONNECT and SUBSCRIBE x pipelined). Every interleaving of the old handler's
+// teardown with the new connection's attach up to the deviation bound. Then, sequentially:
+// the new connection disconnects, 7 s pass, housekeeping runs, a connects a third time
+// (Clean Start 0) and b publishes to x. Whatever the interleaving was, the 5 s session must be
+// gone by then: no Session Present, and no message through its subscription.
+func c15Race(arg string) explore.RunFn {
+	return func(prefix []int) explore.Outcome {
+		w := world.New(prefix, world.Config{})
+		defer w.End()
+		b := w.Connect(world.ConnectPacket("b", 4, true))
+		var first ref.Packet
+		switch arg {
+		case "4c":
+			first = world.ConnectPacket("a", 4, true)
+		case "50":
+			first = world.ConnectPacket("a", 5, false)
+		default:
+			first = v5connect("a", true, 0, 1)
+		}
+		a1 := w.Connect(first)
+		a1.Do(sub(1, "x", 1))
+		a1.C.PeerClose()
+		a2 := w.Start(v5connect("a", false, 0, 5))
+		a2.Send(sub(2, "x", 1))
+		base := len(w.Events)
+		w.Explore(true)
+		w.Run()
+		w.Explore(false)
+		a2.Poll()
+		// did the old handler reach its end-of-connection clean-up (OnDisconnect is called right
+		// before it) only after the new connection had completed the take-over?
+		iDisc, iEst := -1, -1
+		for i, ev := range w.Events[base:] {
+			if ev.Client != "a" {
+				continue
+			}
+			if ev.Name == "OnDisconnect" && iDisc < 0 {
+				iDisc = i
+			}
+			if ev.Name == "OnSessionEstablished" && iEst < 0 {
+				iEst = i
+			}
+		}
+		when := "old-teardown-overlaps-takeover"
+		switch {
+		case iDisc >= 0 && iEst >= 0 && iDisc > iEst:
+			when = "old-teardown-after-takeover-completed"
+		case iDisc >= 0 && iEst < 0:
+			when = "old-teardown-before-new-connection"
+		}
+		o := explore.Outcome{Points: w.X.Points, Divergence: w.X.Divergence(), Steps: w.X.Steps(), Counters: map[string]int{}}
+		o.Viol = runtimeViolations(w)
+		add := func(key, format string, args ...any) {
+			o.Viol = append(o.Viol, explore.Violation{Key: key + ":" + when, Msg: fmt.Sprintf(format, args...)})
+		}
+		o.Counters["race_"+when]++
+		established := len(a2.Recv) >= 2 && a2.Recv[0].Type == ref.CONNACK && a2.Recv[0].ReasonCode == 0 && a2.Recv[1].Type == ref.SUBACK && !a2.Closed()
+		if !established {
+			add("c15:race:second-connection-not-established", "reconnect while the old connection is torn down: %v closed=%v", a2.Recv, a2.Closed())
+			o.Obs = "not-established"
+			return o
+		}
+		if a2.Recv[0].SessionPresent {
+			o.Counters["race_second_connection_resumed_first_session"]++
+		}
+		// the live connection must get what is published now
+		b.Do(pub("x", "live", 1, 1))
+		got := pubsOf(a2.Poll())
+		if len(got) != 1 {
+			add("c15:race:connected-session-does-not-receive", "a's new connection is subscribed to x and received %d copies of a publish: %v", len(got), a2.Recv)
+		}
+		for _, p := range got {
+			if p.Qos > 0 {
+				a2.Do(ref.Packet{Type: ref.PUBACK, PacketID: p.PacketID})
+			}
+		}
+		a2.Do(ref.Packet{Type: ref.DISCONNECT, Props: ref.Props{}})
+		w.Tick(7000)
+		w.Housekeep()
+		w.Tick(1000)
+		w.Housekeep()
+		a3 := w.Connect(v5connect("a", false, 0, 5))
+		a3.Poll()
+		if len(a3.Recv) == 0 || a3.Recv[0].Type != ref.CONNACK || a3.Recv[0].ReasonCode != 0 {
+			add("c15:race:third-connection-refused", "third connection: %v", a3.Recv)
+			return o
+		}
+		if a3.Recv[0].SessionPresent {
+			add("c15:race:session-present-after-expiry", "a's 5 s session was disconnected 8 s ago and housekeeping ran twice, yet CONNACK reports Session Present")
+		}
+		b.Do(pub("x", "late", 1, 2))
+		if late := pubsOf(a3.Poll()); len(late) > 0 {
+			add("c15:race:message-through-discarded-session-subscription", "a's third connection (new session, no subscription) received %v: the expired session's subscription is still in the topic index", late)
+		}
+		o.Counters["race_sessions_judged"]++
+		o.Obs = fmt.Sprintf("sp2=%v sp3=%v", a2.Recv[0].SessionPresent, a3.Recv[0].SessionPresent)
+		return o
+	}
+}
+
 func init() {
 	explore.RegisterBFS("c15", c15Run)
+	explore.RegisterDFS("c15race", c15Race)
 	explore.Register("C15", func(c *explore.Ctx) {
 		c.Rep.Level = "model_checking"
 		c.Rep.Assumption("virtual time in whole seconds; housekeeping (clearExpiredClients, clearExpiredRetained, sendDelayedLWT, clearExpiredInflights) runs only when the hk op is applied, at the current virtual time")
 		c.Rep.Assumption("one operation at a time, broker run to quiescence (sequential histories); client a never has two connections at once (takeover is C14)")
 		c.Rep.Assumption("'discarded exactly when elapsed' is read as: must exist while now < disconnect+expiry; must be gone after a housekeeping strictly later; unspecified in between")
+		c.Rep.Assumption("c15race: threads serialised by the cooperative scheduler; the teardown of a lost connection against the attach of its successor, every interleaving up to the deviation bound; the rest of the scenario is sequential")
+		rb := []explore.Bounds{{Preempt: 0}, {Preempt: 1}, {Preempt: 2}}
+		if !c.Quick() {
+			rb = append(rb, explore.Bounds{Preempt: 3})
+		}
+		for _, ra := range []string{"4c", "50", "51"} {
+			explore.IterateDFS(c, "c15race", ra, rb, 8*time.Second)
+		}
 		firsts := []string{"5.0.1", "5.0.3", "4.0.-", "5.0.-", "4.1.-"}
 		per := 9 * time.Second
 		extra := ""
